@@ -49,7 +49,8 @@ def scen_name(stack, **kw):
 def scenarios(tier):
     out = []
     add = lambda stack, **kw: out.append((stack, kw))
-    for st in [[k] for k in SINGLES] + PAIRS + TRIPLES:
+    triples = TRIPLES if tier == "quick" else [[a_, b_, c_] for a_ in SINGLES for b_ in SINGLES for c_ in SINGLES]      # thorough: every triple of layer kinds
+    for st in [[k] for k in SINGLES] + PAIRS + triples:
         add(st, nondim=True)
     for st in [[k] for k in SINGLES] + (PAIRS if tier == "thorough" else PAIRS[::9]):
         add(st, nondim=False)
